@@ -268,6 +268,20 @@ func (h *orderHarness) Gen(r *Rand, tier string, clean bool) any {
 			c.Order = append(c.Order, Order{B: "?s", Asc: r.Bool()})
 		}
 	}
+	if len(c.Q.GroupBy) > 0 {
+		// Grouping compares anchors by their printed zone (open finding KF-C11-zone-sensitive-values): how many groups the
+		// same instant in two zones forms depends on the order rows reach the reducer, so such data would make the BASE
+		// of this metamorphic check unstable. Grouped queries get data without the second zone.
+		for gi := range c.Graphs {
+			var keep []TSpec
+			for _, t := range c.Graphs[gi].Ts {
+				if t[1] != 8 && t[2] != 28 {
+					keep = append(keep, t)
+				}
+			}
+			c.Graphs[gi].Ts = keep
+		}
+	}
 	c.Limits = []int{0, 1, 2, 3, 5, 50}
 	c.Bad = []string{`"-1"^^type:int64`, `"1.5"^^type:float64`, `"2"^^type:text`, `"true"^^type:bool`}
 	return c
